@@ -94,3 +94,8 @@ claim("C14", "other",
       "Model guards of SNA/SZX/SCR, Z80R 37-byte map incl. flags and execution state, SPCR paging/lock/border/speaker without emulated time, AMXM, RAMP renumbering and page existence, unknown chunks inert, AY set_regs forwarding, SCR target page and refresh.",
       "Not decided: equality of behaviour of two encodings, zlib correctness, KEYB (not listed by the statement).",
       "DESIGN.md §3 C14")
+claim("C15", "other",
+      "potential-panic inventory: path-sensitive interpretation of every loader entry with the asset as an opaque source of bytes, lengths and failures; sites discharged by constants, dominating branch conditions and operand intervals, the rest matched against a reviewed table; allocation-taint rule; EOF/no-progress loop rule",
+      "All loader entry points (SNA, SZX, SCR, TAP deck, fast loader, ROM loader, BufferCursor, read_exact, VTX load, Player::new) on both machines: no undischarged assert/index/range/copy-length/panic site outside the reviewed table, no unbounded asset-sized allocation, no read loop that spins at end of data.",
+      "Not decided: time/memory of external decompressors (no MIR), 'still emulates afterwards' beyond validated field values. Reviewed-table entries rest on stated invariants (reviewed_sites.txt).",
+      "DESIGN.md §3 C15")
